@@ -14,18 +14,20 @@ Decides:
                         catch / (Missing and nothing consumed) / (non-Missing catchable) with state restored;
                         loops in some/count/last/many/collect leave on failure (shared with C06).
  O leftover             run_subparser returns Ok only when nothing is left in scope.
+ L lossless / B boundaries  typed values reach the conversion unaltered (PathBuf/OsString without to_str) and the byte-level
+                        split of `-x=value` uses the real width of the first character (shared with C02).
  R registry             the short-name registry behind `-abc` splitting is complete and wired straight (shared with C02).
 Does not decide: that the composition accepts exactly the declared language and attributes values correctly
 for every shape x vector (language equivalence over run-time data)."""
 from core import *
-import consumers, shapes, c06, c12
+import consumers, shapes, c06, c12, c02, c08
 from cfgq import *
 from dataflow import *
 
 LEVEL = 'other'
 EXPLANATION = __doc__
 ASSUMPTIONS = ['user closures and FromStr impls are total and pure', 'the witness forms of construct! cover the documented forms; other call shapes expand through the same macro arms']
-FLOORS = {'C.consumers': 22, 'P.primitives': 13, 'W.construct': 70, 'K3.consult': 120, 'K5.loops': 11, 'O.leftover': 2, 'F.parsecon': 3, 'R.registry': 14}
+FLOORS = {'C.consumers': 22, 'P.primitives': 13, 'W.construct': 70, 'K3.consult': 120, 'K5.loops': 11, 'O.leftover': 2, 'F.parsecon': 3, 'R.registry': 14, 'L.lossless': 2, 'B.boundaries': 2}
 
 def run(ctx):
     cfgs = ['none', 'all'] if ctx.tier == 'quick' else ['none', 'all', 'ac', 'doc', 'bat']
@@ -41,6 +43,8 @@ def run(ctx):
         c06.k5(ctx, cfg, fs)
         parsecon(ctx, cfg, fs)
         c12.walker_rules(ctx, cfg, fs, 'R.registry', {'collect_shorts': c12.WALKERS['collect_shorts']})
+        c08.keep_only(ctx, lambda: c02.lossless(ctx, cfg, fs), lambda o: 'parse_os_str' in o.key or o.key.startswith('value-path'), 'L.lossless')
+        c08.keep_only(ctx, lambda: c02.boundaries(ctx, cfg, fs), lambda o: 'width-table' in o.key or 'cluster-test' in o.key, 'B.boundaries')
     shapes.construct_shapes(ctx, 'W.construct')
 
 def parsecon(ctx, cfg, fs):
